@@ -74,9 +74,13 @@ def gen_sse(rng, plain: bool, maxlen: int | None = None) -> tuple[bytes, list[tu
                 id_ = v
                 any_field = True
             elif k < 0.87:
-                v = rng.randint(0, 5000)
-                lines.append(f"retry:{sp}{v}")
-                retry = v
+                if rng.random() < 0.25:
+                    # a retry field that is not an integer is ignored (the previous value stands)
+                    lines.append(f"retry:{sp}{rng.choice(['soon', '1.5', '', '12ms'])}")
+                else:
+                    v = rng.randint(0, 5000)
+                    lines.append(f"retry:{sp}{v}")
+                    retry = v
                 any_field = True
             else:
                 lines.append(":" + rng.choice(["", " c", "ping é"]))
